@@ -1,6 +1,7 @@
 import Sigc.Model
 import Sigc.Spec
 import Sigc.Lemmas.InvBal2
+import Sigc.Lemmas.InvOwnG
 /-!
 # C06 — library objects can be destroyed in any order without dangling access
 
@@ -17,6 +18,12 @@ fuel, program and history, i.e. for every order of destructions with arbitrary o
   object and no `signal_impl_holder` is outstanding; `balance_inside` is the form valid inside emissions
   (ghost index = number of running emissions per impl).
 * `unlinked_*` — after either end of a link dies the survivor no longer mentions it.
+* `ownedG_named` — a signal object owned by a functor (`ownG:`, a `shared_ptr` inside the functor) stays
+  named for as long as it is owned: every `ownedG` entry refers to a live signal object, `delG` of that name
+  is refused with `owned`, no name is owned twice (`ownedG_named_from`: from any such state, through any
+  operations).  The name leaves `G` only in `collect` (third `collectStep` branch, `dropHandle`), after the
+  entry has left `ownedG`.  (The harness teardown is outside this statement: it destroys every signal
+  object, whoever owns it.)
 -/
 namespace Sigc.C06
 open Sigc.Model Sigc.Inv
@@ -130,7 +137,65 @@ theorem unlinked_signal_first (s : St) (i : Nat) (hl : Links s) :
 theorem unlinked_trackable_first {s : St} (hw : WF s) (o : Nat) : NoTrack o (invalidateTrackable s o) :=
   invalidateTrackable_notrack hw o
 
+/-- **ownedG_named**: in every reachable state every functor-owned signal object is still named: an entry
+    `(k, g)` of `ownedG` refers to a live signal object, `delG g` is refused with `owned` and changes nothing
+    (as a model step and as an operation of the driver), and `g` is owned only once -/
+theorem ownedG_named (fuel : Nat) (P : Prog) (s : St) (h : runTop fuel P {} P.top = some s) :
+    ∀ p ∈ s.ownedG, (aget s.G p.2).isSome = true ∧
+      stepSimple s (.delG p.2) = some (s, "owned") ∧
+      (∀ f P', execOp (f+1) P' s (.delG p.2) = some (s, .ok "owned")) ∧
+      ∀ q ∈ s.ownedG, q.2 = p.2 → q = p := by
+  have hg := OG.reachable fuel P s h
+  intro p hp
+  obtain ⟨hd, hg1, _⟩ := hg.1 p hp
+  have hdel := hg.delG_owned hp
+  refine ⟨by rw [hg1]; rfl, hdel, fun f P' => ?_, fun q hq e => hg.2 q hq p hp e⟩
+  rw [execOp]
+  · simp only [modeRule, hdel]
+  all_goals simp
+
+/-- the same from any state satisfying the invariant `OG`, through any further list of operations (including
+    emissions that destroy the owning functors re-entrantly) -/
+theorem ownedG_named_from (fuel : Nat) (P : Prog) (s s' : St) (ls : List Line) (hs : OG s)
+    (h : runTop fuel P s ls = some s') :
+    OG s' ∧ ∀ p ∈ s'.ownedG, (aget s'.G p.2).isSome = true ∧ stepSimple s' (.delG p.2) = some (s', "owned") := by
+  have hg := OG.stable.runTop_from fuel P ls s s' hs h
+  refine ⟨hg, fun p hp => ?_⟩
+  obtain ⟨hd, hg1, _⟩ := hg.1 p hp
+  exact ⟨by rw [hg1]; rfl, hg.delG_owned hp⟩
+
+/-- what the third branch of `collectStep` does is what `delG` does when it does not refuse -/
+theorem dropHandle_is_delG (s : St) (g : Nat) (h : Handle) (hg : aget s.G g = some h)
+    (hp : (h.everFwd && !h.fl.isTrackable) = false) (ho : s.ownedG.any (fun p => p.2 = g) = false) :
+    stepSimple s (.delG g) = some (dropHandle s g, "ok") := delG_eq_dropHandle hg hp ho
+
 /-! ### examples -/
+
+/-- `sig1.connect(f)` where the functor `f` owns `sig0` through a `shared_ptr` (`ownG:1:0`): `sig0` stays
+    named, `delG 0` is refused -/
+def exOwn : Prog :=
+  { bodies := [], owners := true,
+    top := [⟨"newG 0 V", .newG 0 (some .V)⟩, ⟨"newG 1 V", .newG 1 (some .V)⟩,
+            ⟨"connfn 0 1 ownG:1:0", .connfn 0 1 (.ownG 1 0) false⟩] }
+
+example : ∃ s, runTop 3 exOwn {} exOwn.top = some s ∧ s.ownedG = [(5, 0)] ∧
+    (aget s.G 0).isSome = true ∧ stepSimple s (.delG 0) = some (s, "owned") := by
+  have h : ∃ s, runTop 3 exOwn {} exOwn.top = some s ∧ s.ownedG = [(5, 0)] := by
+    simp [exOwn, runTop, execLine, execOp, stepSimple, aget, aset, St.fresh, mkFun, specTaint, ensureImpl,
+      insertCell, setConn, setImpl, St.log, collect, collectN, collectStep, heldK, SlotB.holdsK, Fun.ownsK,
+      modeRule, FSpec.isOwner, Flavour.isTrackable]
+  obtain ⟨s, hs, ho⟩ := h
+  have := ownedG_named 3 exOwn s hs (5, 0) (by rw [ho]; exact List.mem_singleton.2 rfl)
+  exact ⟨s, hs, ho, this.1, this.2.1⟩
+
+/-- … and when the owning functor dies (`delG 1` destroys the list that holds it), `collect` destroys `sig0`:
+    nothing is left -/
+example : ∃ s, runTop 3 exOwn {} (exOwn.top ++ [⟨"delG 1", .delG 1⟩]) = some s ∧ s.ownedG = [] ∧ s.G = [] ∧
+    s.impls = [] := by
+  simp [exOwn, runTop, execLine, execOp, stepSimple, aget, aset, adel, St.fresh, mkFun, specTaint, ensureImpl,
+    insertCell, setConn, setImpl, St.log, collect, collectN, collectStep, heldK, SlotB.holdsK, Fun.ownsK,
+    modeRule, FSpec.isOwner, Flavour.isTrackable, gcImpl, nullConnsList, nullConns, amap,
+    dropHandle]
 
 /-- all invariants hold on the example state (a trackable, a bound user slot, a connected copy) after any
     operation -/
